@@ -112,6 +112,25 @@ def smt_program(b1, b2, interval):
     return prog
 
 
+def amt_program(total, interval):
+    def prog(ctx):
+        try:
+            w, ts, buf, res = L.run_active_mt(ctx, total, interval)
+        except E.PathAbort:
+            raise
+        except Exception as ex:
+            ctx.log.append(f"train_active_mt raised {type(ex).__name__}: {ex}")
+            ctx.check(False, "scheduler-completes-with-consistent-step-accounting")
+        result_st, training_steps = res
+        executed = [e.n_steps for e in ts.envs_]
+        ctx.check(sum(executed) <= total, "scheduler-never-exceeds-the-total-budget")
+        for t in range(len(executed)):
+            ctx.check(int(training_steps[t]) == executed[t], "per-task-step-totals=steps-actually-executed-on-that-task")
+        for t in buf.selected:
+            ctx.check(0 <= t < len(executed), "scheduler-selects-valid-task-ids")
+    return prog
+
+
 def selector_programs():
     from e2_pysym.core import sym_real
     import numpy as np
@@ -196,6 +215,9 @@ def main(tier, seed):
     for b1, b2, iv in ([(3, 2, 1), (4, 2, 2)] if tier == "quick" else [(3, 2, 1), (4, 2, 2), (5, 3, 2), (4, 3, 3)]):
         rep.run(f"train_smt[b1={b1},b2={b2},interval={iv}]", smt_program(b1, b2, iv), fn="rl_blox.algorithm.smt.train_smt/smt_stage1/smt_stage2 (train_st = contract stub)",
                 site_of=lambda label: f"train_smt:{label}")
+    for total, iv in ([(3, 1), (4, 2)] if tier == "quick" else [(3, 1), (4, 2), (5, 2), (6, 3)]):
+        rep.run(f"train_active_mt[total={total},interval={iv}]", amt_program(total, iv), fn="rl_blox.algorithm.active_mt.train_active_mt (train_st = contract stub, RoundRobinSelector)",
+                site_of=lambda label: f"train_active_mt:{label}")
     for name, prog in selector_programs():
         rep.run(name, prog, fn=f"rl_blox.blox.multitask/mapb {name}", site_of=lambda label, name=name: f"{name}:{label}")
     return rep.finish()
